@@ -193,7 +193,7 @@ fn generate(v: &str, st: &mut Stats) {
         Ok(t) if t.len() == 1 && t[0].1 == Tok::Lit(val.clone()) => {
             decide(&lit, Some(&val), "generate-literal", st);
             // the same spelling with other tokens directly adjacent
-            for tpl in ["[{X},`1`]", "{X}||`0`", "to_array({X})", "{a:{X},b:'z'}", "[{X}]", "!{X}", "{X}=={X}", "[{X},{R}]"] {
+            for tpl in ["[{X},`1`]", "{X}||`0`", "to_array({X})", "{a:{X},b:'z'}", "[{X}]", "!{X}", "{X}=={X}", "[{X},{R}]", "nokey|{X}", "`null`|{R}", "nokey.z|[{X},{R}]"] {
                 let e = tpl.replace("{X}", &lit).replace("{R}", &raw);
                 if rparse::parse(&e).is_ok() {
                     decide_exact(&e, st);
@@ -289,6 +289,54 @@ pub fn run(tier: Tier) -> i32 {
         decide_exact(&format!("`{}`", t), &mut st);
         decide_exact(&format!("`{}`.a", t), &mut st);
     }
+    // white space inside a JSON literal: JSON's own four characters are allowed around and inside the value,
+    // every other Unicode space / format character makes the literal malformed
+    {
+        let spaces = [' ', '\t', '\n', '\r', '\u{b}', '\u{c}', '\u{85}', '\u{a0}', '\u{1680}', '\u{2000}', '\u{200a}', '\u{200b}', '\u{2028}', '\u{2029}', '\u{202f}', '\u{205f}', '\u{3000}', '\u{feff}', '\u{180e}'];
+        let vals = ["true", "false", "null", "1", "-0.5", "\"a\"", "[]", "{}", "[1,2]", "{\"a\":true}"];
+        for w in spaces {
+            for v in vals {
+                let mut forms = vec![format!("`{}{}`", w, v), format!("`{}{}`", v, w), format!("`{}{}{}`", w, v, w), format!("`{}{}{}{}`", w, w, v, w)];
+                if v.contains(',') {
+                    forms.push(format!("`{}`", v.replace(',', &format!(",{}", w))));
+                }
+                if v.contains(':') {
+                    forms.push(format!("`{}`", v.replace(':', &format!("{}:{}", w, w))));
+                }
+                for f in forms {
+                    st.states += 1;
+                    decide(&f, None, "literal-white-space", &mut st);
+                    st.states += 1;
+                    decide_exact(&format!("[{}, 'x']", f), &mut st);
+                }
+            }
+        }
+    }
+    // member names that are spelled like JSON keywords are member names (only a backtick literal is a value)
+    {
+        let d = json!({"true": 5, "false": 0, "null": "n", "a": 5, "k": true, "xs": [{"k": true, "true": true, "null": null}, {"k": 5, "true": 5, "null": 5}, {"k": null, "true": null}]});
+        let rc = value_to_var(&d);
+        for n in ["true", "false", "null"] {
+            for tpl in ["N", "a == N", "N == a", "a != N", "k == N", "N == `N`", "a.N", "N.a", "xs[0].N", "[N, a]", "{x: N}", "xs[?k == N]", "xs[?N == k]", "xs[?N]", "xs[*].N", "N || a", "N && a", "!N", "N | @", "a < N", "N >= a", "\"N\" == N", "xs[?k == N].N", "not_null(N, a)", "xs[?N == `N`]"] {
+                let e = tpl.replace('N', n);
+                st.states += 1;
+                st.evaluations += 1;
+                st.validated += 1;
+                match (rparse::parse(&e), guarded(|| jmespath::compile(&e))) {
+                    (Ok(p), Ok(Ok(x))) => {
+                        if let Some((exp, act, _)) = crate::oracle::compare(&p, &x, &d, &rc) {
+                            st.violate(viol("C09/keyword-named-member", "keyword-identifiers", &e, &d, exp, act));
+                        } else {
+                            st.nontrivial += 1;
+                            st.outcome("keyword-named member");
+                        }
+                    }
+                    (Ok(_), other) => st.violate(viol("C09/well-formed-form-rejected", "keyword-identifiers", &e, &d, "compiles".into(), format!("{:?}", other.map(|r| r.map(|_| ()).map_err(|e| e.reason))))),
+                    (Err(_), _) => st.count("MODEL_ERROR_keyword_form_does_not_parse", 1),
+                }
+            }
+        }
+    }
     // (iii) unquoted identifiers
     let mut s3 = Stats::default();
     char_dfs(&['a', 'Z', '_', '0', '9'], "", 0, tier.pick(3, 4), &mut s3, &mut |s, st| {
@@ -301,7 +349,7 @@ pub fn run(tier: Tier) -> i32 {
     rep.guard("reference speller and reference decoder are inverse on every generated value", model_err == 0);
     rep.guard("string values observed", st.outcomes.get("string value").cloned().unwrap_or(0) > 1000);
     rep.guard("malformed forms observed", st.outcomes.get("rejected by both").cloned().unwrap_or(0) > 1000);
-    rep.rule = "(i) every content string up to the bound over {a ' \" ` \\ u 0 { SP e-acute emoji} between each of the three delimiter pairs; (ii) every string value up to its bound spelled as raw string, JSON literal and quoted identifier (3 escape styles), every pool document as literal; (iii) every short unquoted identifier. Oracle: R-lex decoder (accept/reject and value); identifiers are searched against an object holding a marker under exactly that name plus decoys. non-trivial = accepted by both and values compared".into();
+    rep.rule = "(i) every content string up to the bound over {a ' \" ` \\ u 0 { SP e-acute emoji} between each of the three delimiter pairs; (ii) every string value up to its bound spelled as raw string, JSON literal and quoted identifier (3 escape styles), every pool document as literal; (iii) every short unquoted identifier. Oracle: R-lex decoder (accept/reject and value); identifiers are searched against an object holding a marker under exactly that name plus decoys. non-trivial = accepted by both and values compared Plus: 19 white-space / format characters around and inside 10 JSON literal values (only SP, TAB, LF, CR are JSON white space); member names spelled true / false / null in 25 positions against a document that has such members; literal and raw-string spellings behind a null left-hand side.".into();
     rep.bounds = json!({"content_len": k, "value_len": vk});
     rep.stats = st;
     rep.finish()
@@ -311,6 +359,15 @@ pub fn replay(case: &Value) -> Option<(String, bool)> {
     let s = case["expression"].as_str()?;
     let mut st = Stats::default();
     decide(s, None, "replay", &mut st);
+    decide_exact(s, &mut st);
+    // cases recorded with their own document (keyword-named members)
+    if case["document"].is_object() && case["document"].get("xs").is_some() {
+        if let (Ok(p), Ok(Ok(x))) = (rparse::parse(s), guarded(|| jmespath::compile(s))) {
+            if let Some((exp, act, _)) = crate::oracle::compare(&p, &x, &case["document"], &value_to_var(&case["document"])) {
+                return Some((format!("expected {} actual {}", exp, act), true));
+            }
+        }
+    }
     Some(match st.violations.first() {
         Some(v) => (format!("{}: expected {} actual {}", v.key, v.expected, v.actual), true),
         None => ("agree".into(), false),
